@@ -8,8 +8,9 @@ R: harness/cmd/filter c15 runs every case through the real code: filter.NewFilte
    objects emitted byte by byte, api.ReadContext -> Decode -> edit -> Encode -> api.WriteContext -> ReadContext -> Decode).  The
    edit is one of the class Edits of spec/Filter.tla (append, prepend, replace in place, truncate to 1 byte, truncate to empty by
    re-slicing / by a new empty slice, nil-then-assign, grow across block boundaries); ApplyEdit gives the expected content.
-V: TLC judges every record (spec/FilterTrace.tla, Verdict15): accepted pipelines must round-trip at all three levels; pipelines
-   pdfcpu does not accept must fail instead of returning other bytes; every RunLength/ASCIIHex/ASCII85 stage output is decoded
+V: TLC judges every record (spec/FilterTrace.tla, Verdict15): accepted (pipeline, content) pairs must round-trip at all three levels
+   (acceptance = parameters of ISO 32000 Table 8 and, for a Flate stage with a predictor, a whole number of rows reaching it - for
+   the original and for the edited content); what pdfcpu does not accept must fail instead of returning other bytes; every RunLength/ASCIIHex/ASCII85 stage output is decoded
    with the TLA+ reference decoders of spec/Filter.tla (written from ISO 32000-1 7.4) and must give the stage input, EOD at the
    very end; all-simple pipelines are decoded end to end by the reference decoders alone."""
 import os, shutil, collections
@@ -27,17 +28,9 @@ META = {
     "design_ref": "DESIGN.md §5 C15",
 }
 
-RT = {"roundtrip-filter", "roundtrip-streamdict", "roundtrip-file"}
 
 
 def key_of(r, why):
-    preds = [s for s in r["pipe"] if s["f"] == "Fl" and s["pred"] >= 2]
-    if preds and set(why) <= RT:
-        kind = "TIFF" if preds[0]["pred"] == 2 else "PNG"
-        return ("FlateDecode.Encode ignores Predictor|%s" % kind,
-                "a stream encoded by pdfcpu with FlateDecode and DecodeParms /Predictor >= 2 (%s) does not decode to the original bytes: "
-                "Encode does not apply the predictor that Decode undoes, e.g. %s on %s: %s" % (
-                    kind, ff.pipe_sig(r["pipe"]), ff.inp_sig(r["inp"]), r["err"] or "decoded bytes differ"))
     return ("%s|%s|%s|%s" % ("+".join(why), ff.pipe_sig(r["pipe"]), ff.inp_sig(r["inp"]), r["edit"]),
             "%s: pipeline [%s] input %s (%d bytes) edit %s: encOk=%s decOk=%s eq=%s sd=(enc %s raw %s len %s dec %s eq %s | edited: ok %s eq %s "
             "fresh-raw %s len %s) file=%r err=%r" % (
@@ -58,7 +51,8 @@ def run(ctx):
         summ = ff.summary(p)
         if summ["cases"] != n:
             raise vlib.HarnessError("replayer consumed %d of %d cases" % (summ["cases"], n))
-        rows, bad, _ = ff.judge(ctx, "C15", rec, d)
+        rows, bad, notes = ff.judge(ctx, "C15", rec, d)
+        tags = collections.Counter(t for nt in notes for t in nt["tags"])
         if len(rows) != n:
             raise vlib.HarnessError("%d records for %d cases" % (len(rows), n))
         groups = {}
@@ -75,12 +69,17 @@ def run(ctx):
                exhaustive=True, replayed_cases=n, by_value_in_tlc=sum(1 for r in rows if r["small"]),
                reference_decoded_stage_outputs=obs, file_round_trips=sum(1 for r in rows if r["file"] == "ok"),
                pipelines=len({ff.pipe_sig(r["pipe"]) for r in rows}), input_kinds=summ["kinds"],
-               edits=dict(collections.Counter(r["edit"] for r in rows)), records_rejected_by_spec=len(bad))
+               edits=dict(collections.Counter(r["edit"] for r in rows)), flate_predictor_branches=dict(tags),
+               records_rejected_by_spec=len(bad))
+        for t in ("pred-whole-rows", "pred-partial-rows", "edit-whole-rows", "edit-partial-rows", "pred-inner-stage-accepted"):
+            if not tags.get(t):
+                raise vlib.HarnessError("vacuous: no record exercised the branch %r of the Flate predictor acceptance" % t)
         for r in rows[:1] + [r for r in rows if len(r["pipe"]) == 3 and r["small"] and r["n"] > 4][:1] + [r for r, _ in bad[:1]]:
             ev.sample(r)
         ev.assume("Flate/LZW byte fidelity is an equality observation made in Go (bytes.Equal), re-checked by value in TLC only for inputs <= 48 bytes",
-                  "acceptance of decode parameters as modelled in FilterTrace.tla: LZWDecode accepts no Predictor > 1 (pdfcpu reports it as unsupported), "
-                  "FlateDecode accepts the ISO 32000-1 Table 8 values",
+                  "acceptance as modelled in FilterTrace.tla: LZWDecode accepts no Predictor > 1 (pdfcpu reports it as unsupported); FlateDecode accepts the "
+                  "ISO 32000-1 Table 8 values and, with a Predictor >= 2, content that reaches the stage as a whole number of rows (the byte counts "
+                  "reaching each stage are observed from the real encoder chain); what is not accepted must fail or return the same bytes, never other bytes",
                   "inputs are the classes of FilterGen.tla, materialised by the Go command (seeded for 'rnd'/'uniq')",
                   "file level: stream objects are the page content streams of PDF files emitted by harness/lib/rawpdf; reading uses relaxed validation",
                   "harness built with go1.26.8")
